@@ -36,6 +36,42 @@ def run(res):
         cases.append(('CTL', F.rand_ctl(rng, rng.choice([3, 4, 5, 6]))))
         cases.append(('LTL', F.rand_ltl_path(rng, rng.choice([3, 4, 5, 6]), max_temporal=8)))
         cases.append(('CTLS', F.rand_ctls_state(rng, rng.choice([3, 4, 5, 6]), max_temporal=5, qdepth=3)))
+    # history + coincidence: two DIFFERENT formulas with the same printed text, rewritten one after the other in this
+    # process (f, then f' = f with a subformula replaced by an atom NAMED like that subformula's print, then f again)
+    def positions(t, path=()):
+        if t in ('tt', 'ff') or t[0] == 'ap':
+            return
+        if path:
+            yield path, t
+        for i, c in enumerate(t[1:], 1):
+            for x in positions(c, path + (i,)):
+                yield x
+
+    def replace_at(t, path, new):
+        if not path:
+            return new
+        i = path[0]
+        return t[:i] + (replace_at(t[i], path[1:], new),) + t[i + 1:]
+    ncoll = 0
+    for _ in range(300 if quick else 3000):
+        logic = rng.choice(['CTL', 'CTL', 'LTL', 'CTLS'])
+        t = {'CTL': lambda: F.rand_ctl(rng, rng.choice([4, 5, 6])),
+             'LTL': lambda: F.rand_ltl_path(rng, rng.choice([4, 5]), max_temporal=6),
+             'CTLS': lambda: F.rand_ctls_state(rng, rng.choice([4, 5]), max_temporal=4, qdepth=2)}[logic]()
+        cands = [(pth, sub) for pth, sub in positions(t)
+                 if logic != 'CTL' or F.is_ctl_state(sub)]
+        if not cands:
+            continue
+        pth, sub = rng.choice(cands)
+        try:
+            name = str(to_obj(sub, lang(logic)))
+            t2 = replace_at(t, pth, ('ap', name))
+            if str(to_obj(t2, lang(logic))) != str(to_obj(t, lang(logic))):
+                continue
+        except Exception:
+            continue
+        ncoll += 1
+        cases += [(logic, t), (logic, t2), (logic, t)]
     # known finding: LTL.A(g).get_equivalent_restricted_formula()
     kf = known_findings('C05')
     try:
